@@ -53,6 +53,18 @@ def run_segment(ld, n, cdir, ops, sleep=0.0, handles=None):
         return pyval(i)
     handles = [] if handles is None else handles
     outs = []
+    # every third segment runs with little space left on the cache device (3 GiB free: the library warns and keeps storing)
+    import shutil as _sh
+    old_du = _sh.disk_usage
+    if (n + len(ops)) % 3 == 0:
+        _sh.disk_usage = lambda path: collections.namedtuple('usage', 'total used free')(100 * 2 ** 30, 97 * 2 ** 30, 3 * 2 ** 30)
+    try:
+        return _run_segment(ld, n, cdir, ops, fn, calls, handles, outs)
+    finally:
+        _sh.disk_usage = old_du
+
+
+def _run_segment(ld, n, cdir, ops, fn, calls, handles, outs):
     with warnings.catch_warnings():
         warnings.simplefilter('ignore')
         for op in ops:
